@@ -17,14 +17,31 @@ import (
 // VerifBackoffFormula: for EVERY 64-bit back-off value: a zero back-off returns 16 ms without
 // waiting; otherwise the wait requested is exactly the back-off and the next value is 2b below
 // 5 s, b+5 s below 30 s, b from then on; a wait ends early only through cancellation.
-func VerifBackoffFormula() {
+func VerifBackoffFormula() { vBackoffFormula(context.Background(), false) }
+
+// VerifBackoffFormulaDeadline: the same under a context that has a deadline (a request with a
+// time-out): the wait requested is still the scheduled one; it may end early only because the
+// deadline passes, with the context's error.
+func VerifBackoffFormulaDeadline() {
+	ctx, cancel := context.WithTimeout(context.Background(), time.Hour)
+	defer cancel()
+	vBackoffFormula(ctx, true)
+}
+
+func vBackoffFormula(ctx context.Context, deadline bool) {
 	b := time.Duration(verifI64())
 	verifAssume(b >= 0)
 	if verifParam("SMALL") == 1 {
 		verifAssume(b <= time.Millisecond) // this job is also replayed natively, which really sleeps
 	}
 	t0 := verifTimerCount()
-	next, err := sleepAndIncreaseBackoff(context.Background(), b)
+	next, err := sleepAndIncreaseBackoff(ctx, b)
+	if deadline && err != nil {
+		verifAssert(err == context.DeadlineExceeded && b != 0, "a wait ends early only because the context's deadline passed")
+		verifAssert(verifTimerCount() == t0+1 && verifTimerDur(t0) == int64(b), "the wait requested is exactly the back-off")
+		verifReach("deadline-passed")
+		return
+	}
 	verifAssert(err == nil, "a wait under a live context ends without error")
 	if b == 0 {
 		verifAssert(next == 16*time.Millisecond, "the first back-off is 16 ms")
